@@ -42,6 +42,9 @@ type Loader struct {
 	rootLocation string
 
 	visitedPathItemRefs map[string]struct{}
+	// ownContent holds the path items with a reference whose content has been looked at: the content of
+	// the target once the reference was followed, or what was written next to the reference
+	ownContent map[*PathItem]struct{}
 
 	visitedDocuments map[string]*T
 
@@ -62,6 +65,7 @@ func NewLoader() *Loader {
 func (loader *Loader) resetVisitedPathItemRefs() {
 	loader.visitedPathItemRefs = make(map[string]struct{})
 	loader.visitedRefs = make(map[string]struct{})
+	loader.ownContent = nil
 	loader.chainTargets = nil
 	loader.visitedPath = nil
 	loader.backtrack = make(map[string][]func(value any))
@@ -1301,10 +1305,18 @@ func (loader *Loader) resolvePathItemRef(doc *T, pathItem *PathItem, documentPat
 	if ref := pathItem.Ref; ref != "" {
 		key := loader.refKey("pathItem", ref, documentPath)
 		if !pathItem.isEmpty() {
-			return
+			// either the reference has been followed already (the path item has its target's content,
+			// resolved where it was found) or the path item was written with content of its own next to
+			// the reference: that content is looked at like any other, once
+			if _, seen := loader.ownContent[pathItem]; seen {
+				return
+			}
+			loader.seenPathItem(pathItem)
+			return loader.resolvePathItemContent(doc, pathItem, documentPath)
 		}
 		if !loader.shouldVisitRef(key, func(value any) {
 			*pathItem = *value.(*PathItem)
+			loader.seenPathItem(pathItem)
 		}) {
 			return nil
 		}
@@ -1332,9 +1344,21 @@ func (loader *Loader) resolvePathItemRef(doc *T, pathItem *PathItem, documentPat
 			}
 		}
 		pathItem.Ref = ref
+		loader.seenPathItem(pathItem)
 		defer loader.unvisitRef(key, pathItem)
 	}
+	return loader.resolvePathItemContent(doc, pathItem, documentPath)
+}
 
+func (loader *Loader) seenPathItem(pathItem *PathItem) {
+	if loader.ownContent == nil {
+		loader.ownContent = make(map[*PathItem]struct{})
+	}
+	loader.ownContent[pathItem] = struct{}{}
+}
+
+// resolvePathItemContent resolves what a path item contains: its parameters and its operations
+func (loader *Loader) resolvePathItemContent(doc *T, pathItem *PathItem, documentPath *url.URL) (err error) {
 	for _, parameter := range pathItem.Parameters {
 		if err = loader.resolveParameterRef(doc, parameter, documentPath); err != nil {
 			return
